@@ -85,7 +85,7 @@ func (l *loader) Import(path string) (*types.Package, error) {
 func (l *loader) check(p *srcPkg) {
 	p.busy = true
 	defer func() { p.busy = false }()
-	p.info = &types.Info{Types: map[ast.Expr]types.TypeAndValue{}}
+	p.info = &types.Info{Types: map[ast.Expr]types.TypeAndValue{}, Defs: map[*ast.Ident]types.Object{}, Uses: map[*ast.Ident]types.Object{}}
 	conf := types.Config{Importer: l, Error: func(error) {}, FakeImportC: true}
 	name := "p"
 	if len(p.files) > 0 {
@@ -101,6 +101,9 @@ type rewriteStats struct {
 	MapSitesUnhooked []string `json:"map_sites_unhooked"`
 	ChanSendsHooked  []string `json:"chan_sends_hooked"`
 	ChanOpsUnhooked  []string `json:"chan_ops_unhooked"`
+	// package-level variables of the repository: re-initialised before every in-process application run / left alone
+	PkgVarsReset    []string `json:"package_vars_reset"`
+	PkgVarsNotReset []string `json:"package_vars_not_reset"`
 }
 
 type edit struct {
@@ -191,6 +194,7 @@ func buildOverlay(repo, verif, out string) (string, *rewriteStats, error) {
 			l.check(p)
 		}
 		isParser := strings.HasSuffix(ip, "/v3/parser")
+		plan := planResets(l.fset, repo, p, st)
 		for fi, f := range p.files {
 			fname := p.names[fi]
 			src, err := os.ReadFile(fname)
@@ -414,7 +418,8 @@ func buildOverlay(repo, verif, out string) (string, *rewriteStats, error) {
 				}
 				return true
 			})
-			if len(edits) == 0 {
+			fileResets := plan.byFile[fi]
+			if len(edits) == 0 && len(fileResets) == 0 {
 				continue
 			}
 			// import on the package clause line (keeps line numbers)
@@ -435,6 +440,17 @@ func buildOverlay(repo, verif, out string) (string, *rewriteStats, error) {
 				fmt.Fprintf(&buf, "\nfunc verifVal_%d(v interface{}) %s {\n\tif v == nil {\n\t\tvar z %s\n\t\treturn z\n\t}\n\treturn v.(%s)\n}\n", i, ts, ts, ts)
 				fmt.Fprintf(&buf, "func verifRecv2_%d(ch interface{}) (%s, bool) {\n\tv, ok := verifshim.Recv(ch)\n\treturn verifVal_%d(v), ok\n}\n", i, ts, i)
 				fmt.Fprintf(&buf, "func verifRecv1_%d(ch interface{}) %s {\n\tv, _ := verifshim.Recv(ch)\n\treturn verifVal_%d(v)\n}\n", i, ts, i)
+			}
+			fmt.Fprintf(&buf, "\nvar _ = verifshim.Zero\n")
+			for _, r := range fileResets {
+				fmt.Fprintf(&buf, "\nfunc verifReset_%d_() { %s }\n", r.id, r.body)
+			}
+			if fi == plan.registerIn {
+				fmt.Fprintf(&buf, "\nfunc init() {\n\tverifshim.RegisterReset(%q, func() {\n", ip)
+				for _, id := range plan.order {
+					fmt.Fprintf(&buf, "\t\tverifReset_%d_()\n", id)
+				}
+				fmt.Fprintf(&buf, "\t})\n}\n")
 			}
 			rel, _ := filepath.Rel(repo, fname)
 			dst := filepath.Join(rwdir, rel)
@@ -512,4 +528,218 @@ func mutatesMap(body *ast.BlockStmt, x ast.Expr, src []byte, off func(token.Pos)
 		return true
 	})
 	return found
+}
+
+// ---- package-level state ----------------------------------------------------------------------------------------
+// The in-process application driver runs the application thousands of times in one process, whereas every real
+// invocation of the tool starts with freshly initialised package-level variables. planResets generates, per package,
+// a function that gives every package-level variable its initial value again (zero value, or its initialiser when
+// that is a plain constructive expression); runApp calls all of them before each run. Packages with an init function
+// and variables whose initialiser calls arbitrary functions are left alone (and listed in the evidence).
+
+type resetFn struct {
+	id   int
+	body string
+}
+
+type resetPlan struct {
+	byFile     map[int][]resetFn
+	order      []int
+	registerIn int
+}
+
+var pureCalls = map[string]bool{"errors.New": true, "fmt.Errorf": true, "fmt.Sprintf": true, "fmt.Sprint": true, "regexp.MustCompile": true,
+	"regexp.MustCompilePOSIX": true, "strings.NewReplacer": true, "strings.Repeat": true, "bytes.NewBuffer": true, "bytes.NewBufferString": true,
+	"big.NewRat": true, "big.NewInt": true, "math.Inf": true, "math.NaN": true, "time.Date": true, "strings.Split": true, "strings.Fields": true}
+
+func planResets(fset *token.FileSet, repo string, p *srcPkg, st *rewriteStats) resetPlan {
+	plan := resetPlan{byFile: map[int][]resetFn{}, registerIn: -1}
+	if p.tpkg == nil {
+		return plan
+	}
+	rel := func(pos token.Pos) string {
+		ps := fset.Position(pos)
+		r, _ := filepath.Rel(repo, ps.Filename)
+		return fmt.Sprintf("%s:%d", filepath.ToSlash(r), ps.Line)
+	}
+	hasInit := false
+	for _, f := range p.files {
+		for _, d := range f.Decls {
+			if fd, ok := d.(*ast.FuncDecl); ok && fd.Recv == nil && fd.Name.Name == "init" {
+				hasInit = true
+			}
+		}
+	}
+	var constructive func(e ast.Expr) bool
+	constructive = func(e ast.Expr) bool {
+		if e == nil {
+			return true
+		}
+		if tv, ok := p.info.Types[e]; ok && tv.IsType() {
+			return true
+		}
+		switch x := e.(type) {
+		case *ast.BasicLit, *ast.FuncLit:
+			return true
+		case *ast.Ident:
+			return true
+		case *ast.SelectorExpr:
+			if id, ok := x.X.(*ast.Ident); ok {
+				if _, isPkg := p.info.Uses[id].(*types.PkgName); isPkg {
+					return true // a constant, variable or function VALUE of another package
+				}
+			}
+			return constructive(x.X)
+		case *ast.ParenExpr:
+			return constructive(x.X)
+		case *ast.UnaryExpr:
+			return x.Op != token.ARROW && constructive(x.X)
+		case *ast.BinaryExpr:
+			return constructive(x.X) && constructive(x.Y)
+		case *ast.StarExpr:
+			return constructive(x.X)
+		case *ast.KeyValueExpr:
+			return constructive(x.Key) && constructive(x.Value)
+		case *ast.CompositeLit:
+			for _, el := range x.Elts {
+				if !constructive(el) {
+					return false
+				}
+			}
+			return true
+		case *ast.CallExpr:
+			ok := false
+			if tv, has := p.info.Types[x.Fun]; has && tv.IsType() {
+				ok = true // conversion
+			} else if id, isId := x.Fun.(*ast.Ident); isId {
+				if _, isBuiltin := p.info.Uses[id].(*types.Builtin); isBuiltin {
+					switch id.Name {
+					case "make", "new", "len", "cap", "append", "complex", "real", "imag", "min", "max":
+						ok = true
+					}
+				}
+			} else if sel, isSel := x.Fun.(*ast.SelectorExpr); isSel {
+				if id, isId := sel.X.(*ast.Ident); isId {
+					if pn, isPkg := p.info.Uses[id].(*types.PkgName); isPkg && pureCalls[pn.Imported().Name()+"."+sel.Sel.Name] {
+						ok = true
+					}
+				}
+			}
+			if !ok {
+				return false
+			}
+			for _, a := range x.Args {
+				if !constructive(a) {
+					return false
+				}
+			}
+			return true
+		}
+		return false
+	}
+	next := 0
+	idOf := map[types.Object]int{}
+	var zeroIDs []int
+	for fi, f := range p.files {
+		src, err := os.ReadFile(p.names[fi])
+		if err != nil {
+			continue
+		}
+		off := func(pos token.Pos) int { return fset.Position(pos).Offset }
+		for _, d := range f.Decls {
+			gd, ok := d.(*ast.GenDecl)
+			if !ok || gd.Tok != token.VAR {
+				continue
+			}
+			for _, sp := range gd.Specs {
+				vs := sp.(*ast.ValueSpec)
+				var names []string
+				blank := false
+				for _, n := range vs.Names {
+					if n.Name == "_" {
+						blank = true
+					}
+					names = append(names, n.Name)
+				}
+				if blank && len(names) == 1 {
+					continue // no state
+				}
+				label := fmt.Sprintf("%s %s.%s", rel(vs.Pos()), p.tpkg.Name(), strings.Join(names, ","))
+				embed := false
+				for _, cg := range []*ast.CommentGroup{gd.Doc, vs.Doc} {
+					if cg == nil {
+						continue
+					}
+					for _, c := range cg.List {
+						if strings.HasPrefix(c.Text, "//go:embed") {
+							embed = true
+						}
+					}
+				}
+				if hasInit || blank || embed {
+					why := "package has an init function"
+					if embed {
+						why = "go:embed"
+					} else if blank {
+						why = "blank name in the specification"
+					}
+					st.PkgVarsNotReset = append(st.PkgVarsNotReset, label+" ("+why+")")
+					continue
+				}
+				body := ""
+				if len(vs.Values) == 0 {
+					for _, n := range names {
+						body += "verifshim.Zero(&" + n + "); "
+					}
+				} else {
+					ok := true
+					for _, v := range vs.Values {
+						if !constructive(v) {
+							ok = false
+						}
+					}
+					if !ok {
+						st.PkgVarsNotReset = append(st.PkgVarsNotReset, label+" (initialiser calls a function)")
+						continue
+					}
+					body = strings.Join(names, ", ") + " = " + string(src[off(vs.Values[0].Pos()):off(vs.Values[len(vs.Values)-1].End())])
+				}
+				id := next
+				next++
+				plan.byFile[fi] = append(plan.byFile[fi], resetFn{id, body})
+				for _, n := range vs.Names {
+					if o := p.info.Defs[n]; o != nil {
+						idOf[o] = id
+					}
+				}
+				if len(vs.Values) == 0 {
+					zeroIDs = append(zeroIDs, id)
+				}
+				st.PkgVarsReset = append(st.PkgVarsReset, label)
+				if plan.registerIn < 0 {
+					plan.registerIn = fi
+				}
+			}
+		}
+	}
+	// zero values first, then the initialisers in the package's initialisation order
+	done := map[int]bool{}
+	for _, id := range zeroIDs {
+		plan.order = append(plan.order, id)
+		done[id] = true
+	}
+	for _, in := range p.info.InitOrder {
+		for _, v := range in.Lhs {
+			if id, ok := idOf[v]; ok && !done[id] {
+				plan.order = append(plan.order, id)
+				done[id] = true
+			}
+		}
+	}
+	for id := 0; id < next; id++ { // (anything the type checker did not order, e.g. after a type error)
+		if !done[id] {
+			plan.order = append(plan.order, id)
+		}
+	}
+	return plan
 }
